@@ -565,7 +565,8 @@ class StreamReader:
         while chunk_splits and chunk_splits[0] < self._cursor:
             chunk_splits.popleft()
 
-        if self._size < self._low_water and (
+        # An empty buffer always resumes: with limit=0 no size is below the mark.
+        if (self._size < self._low_water or not self._buffer) and (
             self._http_chunk_splits is None
             or len(self._http_chunk_splits) < self._low_water_chunks
         ):
